@@ -294,14 +294,15 @@ class Scheduler:
         await asyncio.wait(tasks, timeout=timeout)
 
     async def _gentle_kill(self, proc):
-        if proc is None:
+        if proc is None or proc.returncode is not None:
             return
 
         proc.kill()
         await asyncio.sleep(1)
         if proc.returncode is None:
             await asyncio.sleep(10)
-            proc.terminate()
+            if proc.returncode is None:
+                proc.terminate()
         await proc.wait()
 
     async def try_handle_task(self, tid, name, script, working_dir, time_limit, deps):
@@ -358,6 +359,9 @@ class Scheduler:
             await self._gentle_kill(proc)
             self.task_states[tid] = LocalStatus.KILLED
         except TaskFailedError:
+            self.task_states[tid] = LocalStatus.FAILED
+        except Exception:
+            logger.exception("Task %s could not be run", name)
             self.task_states[tid] = LocalStatus.FAILED
         else:
             self.task_states[tid] = LocalStatus.COMPLETED
